@@ -21,6 +21,10 @@ pub struct CoCaller {
     /// script used if this request becomes a leader
     pub step: Step,
     pub cancel_after: Option<u64>,
+    /// keep the call future alive (un-polled) for this many ms after it has resolved before
+    /// dropping it, as a caller holding it in a struct or a select! loop would
+    #[serde(default)]
+    pub hold_after: Option<u64>,
 }
 
 #[derive(Clone, Debug, Serialize, Deserialize)]
@@ -45,13 +49,15 @@ fn case_strategy(tier: Tier) -> BoxedStrategy<CoCase> {
             2 => (1u64..=5).prop_map(|k| Some(k * 10)),
             2 => (1u64..=50).prop_map(Some),
         ],
+        prop_oneof![4 => Just(None), 1 => (1u64..=6).prop_map(|k| Some(k * 10)), 1 => (1u64..=70).prop_map(Some)],
     )
-        .prop_map(|(at, key, clone, step, cancel_after)| CoCaller {
+        .prop_map(|(at, key, clone, step, cancel_after, hold_after)| CoCaller {
             at,
             key,
             clone,
             step,
             cancel_after,
+            hold_after,
         });
     (
         prop::collection::vec(caller, 2..=hi),
@@ -106,8 +112,10 @@ async fn interp(case: &CoCase) -> Verdict {
         .map(|c| c.at + c.cancel_after.unwrap_or(0))
         .max()
         .unwrap_or(0)
-        + 80;
+        + 80
+        + case.callers.iter().map(|c| c.hold_after.unwrap_or(0)).max().unwrap_or(0);
     let mut task: Vec<Option<usize>> = vec![None; n];
+    let mut call_panicked = vec![false; n];
     for t in 0..=horizon {
         if t > 0 {
             sim.begin_instant().await;
@@ -122,8 +130,37 @@ async fn interp(case: &CoCase) -> Verdict {
                 let s = &mut clones[(c.clone % 3) as usize];
                 let _ = futures::future::poll_fn(|cx| s.poll_ready(cx)).await;
                 log.note("call", i as i64, c.key as i64);
-                let fut = s.call(req);
-                task[i] = Some(sim.spawn_call(fut, map_outcome));
+                // the inner service may panic inside `call` itself (scripted)
+                let fut = match std::panic::catch_unwind(std::panic::AssertUnwindSafe(|| s.call(req))) {
+                    Ok(f) => f,
+                    Err(p) => {
+                        if !p.is::<sim::ScriptedPanic>() {
+                            violations.push(format!(
+                                "request {i}: unexpected panic inside call(): {}",
+                                sim::panic_msg(&p)
+                            ));
+                        }
+                        call_panicked[i] = true;
+                        continue;
+                    }
+                };
+                let idx = sim.n_tasks();
+                let lg = log.clone();
+                let hold = c.hold_after;
+                task[i] = Some(sim.spawn(async move {
+                    // polled through a reference so that the future object outlives its completion
+                    let mut f = Box::pin(fut);
+                    let r = f.as_mut().await;
+                    lg.push(Ev::Resolve {
+                        t: sim::now(),
+                        task: idx,
+                        out: map_outcome(r),
+                    });
+                    if let Some(h) = hold {
+                        tokio::time::sleep(std::time::Duration::from_millis(h)).await;
+                    }
+                    drop(f);
+                }));
             }
         }
         for (i, c) in case.callers.iter().enumerate() {
@@ -321,7 +358,7 @@ async fn interp(case: &CoCase) -> Verdict {
             }
         }
         // nobody waits forever: at the horizon a live task must depend on a never-ending leader
-        if sim.state(tk) == TaskState::Live {
+        if sim.state(tk) == TaskState::Live && resolve.is_none() {
             let dep = joined[i].or_else(|| {
                 snap.iter().find_map(|e| match e {
                     Ev::Enter { serial, req, .. } if req.id == i as u32 => Some(*serial),
@@ -360,6 +397,12 @@ async fn interp(case: &CoCase) -> Verdict {
     }
     if fate.values().any(|f| f.1 == 3) {
         classes.push("leader_panic");
+    }
+    if call_panicked.iter().any(|&p| p) {
+        classes.push("panic_inside_inner_call_fn");
+    }
+    if case.callers.iter().any(|c| c.hold_after.is_some()) {
+        classes.push("completed_future_kept_alive");
     }
     Verdict {
         violations,
